@@ -324,12 +324,13 @@ Section CUES.
   Qed.
 
   Lemma ml_score_flagged n ft l :
-    lends f = Some n -> In ft (f_feats f) -> ft_data ft = MlScore l true ->
+    lends f = Some n -> mlclass_stored f = false ->
+    In ft (f_feats f) -> ft_data ft = MlScore l true ->
     In MlClassError cs.
   Proof.
-    intros Hn Hin Hd. destruct (violations_some _ _ Hv) as [m [Hm ->]].
+    intros Hn Hst Hin Hd. destruct (violations_some _ _ Hv) as [m [Hm ->]].
     rewrite Hn in Hm. injection Hm as <-.
-    apply coll_ml. unfold check_ml_class.
+    apply coll_ml. unfold check_ml_class. rewrite Hst. cbn [negb andb].
     replace (existsb _ (f_feats f)) with true; [left; reflexivity|].
     symmetry. apply existsb_exists. exists ft. split; [exact Hin|].
     rewrite Hd. reflexivity.
@@ -538,7 +539,8 @@ Proof.
   { unfold check_metadata_online_filter_polygon_points_shape. rewrite E21.
     reflexivity. }
   assert (Q12 : check_ml_class f n = check_ml_class g n).
-  { unfold check_ml_class. rewrite (existsb_perm _ _ _ P). reflexivity. }
+  { unfold check_ml_class, mlclass_stored.
+    rewrite !(existsb_perm _ _ _ P). reflexivity. }
   assert (Q13 : check_temperature_zero_zmd f = check_temperature_zero_zmd g).
   { unfold check_temperature_zero_zmd. rewrite E22, (existsb_perm _ _ _ P).
     reflexivity. }
